@@ -289,6 +289,8 @@ func implC02(line string) string {
 		})
 	case "bridge":
 		return implBridge(f)
+	case "deep":
+		return implDeep(f)
 	case "goapi2":
 		var k int
 		if len(f) != 2 {
@@ -439,6 +441,7 @@ func genC02(c *h.Ctx) {
 		}
 	}
 	genRecur(c)
+	genDeep(c)
 	genGoAPI2(c)
 	genBridge(c)
 	// stateful API sequences
